@@ -69,6 +69,14 @@ Theorem C19_phases_forward_elite_bounded :
     (length (ro_elite s1) <= r_elite c)%nat /\ (length (ro_elite s2) <= r_elite c)%nat.
 Proof. exact ro_history. Qed.
 
+(* CLAUSE NOT HOLDING: "error measures stay finite".  Network::distribute_error multiplies the accumulated error of every neighbour
+   by (1 + distribution_factor / distance) and only retrain (smooth) resets errors, so along a stream of store_batch calls without
+   smoothing the exact value of a neighbour's node.error grows geometrically past f64::MAX (the f64 value is then +inf).
+   Witness on the implementation: corpus/C19/error-overflow.json (node.error = +inf at store_batch call 1753). *)
+Theorem C19_error_measures_finite_refuted :
+  exists k, let e := distribute_times k (1, 1024) 8 1 in f64_max_bound * snd e < fst e.
+Proof. exact error_overflow_witness. Qed.
+
 (* non-vacuity: a concrete creation + growth history, a concrete compaction that really shrinks, a history through all phases *)
 Theorem C19_nonvacuous_history : exists n n',
   network_new (mkCfg 2) w_data w_round (repeat w_round 8) = Created n /\
